@@ -685,7 +685,7 @@ func checkTracker(r *Report, p *Prog, rule string) {
 	a := NewAnalysis(p)
 	// the per-cookie checks may sit in an unexported helper of the package (decode, then compare the index)
 	a.Inline = func(f *ssa.Function) bool {
-		return f.Pkg == fn.Pkg && f != fn && p.InLibrary(f) && (f.Object() == nil || !f.Object().Exported()) && errIndex(f) >= 0
+		return f.Pkg == fn.Pkg && f != fn && p.InLibrary(f) && (f.Object() == nil || !f.Object().Exported()) && (errIndex(f) >= 0 || lastResultIsBool(f))
 	}
 	B := a.B
 	fc := a.Ctx(fn)
@@ -972,12 +972,12 @@ func checkCookieFlags(r *Report, p *Prog, rule string) {
 	a := NewAnalysis(p)
 	fc := a.Ctx(cs)
 	r.Fn(p.FnName(cs))
-	lf := litFields(cs, "net/http", "Cookie")
+	lf := litFieldsDeep(p, cs, "net/http", "Cookie")
 	one := func(field string) (string, bool) {
 		if len(lf[field]) != 1 {
 			return "", false
 		}
-		return fc.AP(lf[field][0].Val), true
+		return apInCaller(fc, lf[field][0].Val, lf[field][0].Parent()), true
 	}
 	ho, ok := one("HttpOnly")
 	r.Check(ok && strings.HasSuffix(ho, ".HTTPOnly"), rule, p.FnName(cs)+": session cookie HttpOnly follows the provider setting", p.Pos(cs.Pos()), ho, "HttpOnly is "+ho)
@@ -986,7 +986,7 @@ func checkCookieFlags(r *Report, p *Prog, rule string) {
 		var ls []string
 		hasCfg, hasScheme := false, false
 		for _, l := range leaves {
-			s := fc.AP(l)
+			s := apInCaller(fc, l, lf["Secure"][0].Parent())
 			ls = append(ls, s)
 			if strings.HasSuffix(s, ".Secure") {
 				hasCfg = true
@@ -1022,7 +1022,7 @@ func checkCookieFlags(r *Report, p *Prog, rule string) {
 	tr := p.MustFunc("samlsp", "CookieRequestTracker", "TrackRequest")
 	fc3 := a.Ctx(tr)
 	r.Fn(p.FnName(tr))
-	lf3 := litFields(tr, "net/http", "Cookie")
+	lf3 := litFieldsDeep(p, tr, "net/http", "Cookie")
 	okT := false
 	if len(lf3["HttpOnly"]) == 1 {
 		if v, ok := constBool(lf3["HttpOnly"][0].Val); ok && v {
@@ -1032,7 +1032,7 @@ func checkCookieFlags(r *Report, p *Prog, rule string) {
 	r.Check(okT, rule, p.FnName(tr)+": tracking cookie is HttpOnly", p.Pos(tr.Pos()), "constant true", "tracking cookie readable from scripts")
 	get := func(f string) string {
 		if len(lf3[f]) == 1 {
-			return fc3.AP(lf3[f][0].Val)
+			return apInCaller(fc3, lf3[f][0].Val, lf3[f][0].Parent())
 		}
 		return ""
 	}
@@ -1050,6 +1050,24 @@ func checkCookieFlags(r *Report, p *Prog, rule string) {
 		}
 	}
 	r.Check(okName, rule, p.FnName(tr)+": tracking cookie named prefix + index", p.Pos(tr.Pos()), name, "Name is "+name)
+}
+
+// litFieldsDeep: the stores into the fields of the composite literals of the given type built in fn, or, when fn builds
+// none, in the unexported helpers of its package it calls (the literal moved into newCookie(...)).
+func litFieldsDeep(p *Prog, fn *ssa.Function, pkg, typ string) map[string][]*ssa.Store {
+	lf := litFields(fn, pkg, typ)
+	if len(lf) > 0 {
+		return lf
+	}
+	for _, h := range helperRegion(p, fn, 2) {
+		if h == fn || !p.InLibrary(h) {
+			continue
+		}
+		for k, v := range litFields(h, pkg, typ) {
+			lf[k] = append(lf[k], v...)
+		}
+	}
+	return lf
 }
 
 // boolLeaves: leaves of a boolean or/and expression lowered to phis.
@@ -1294,4 +1312,10 @@ func checkIDPInitiatedDefault(r *Report, p *Prog, rule string) {
 	if n == 0 {
 		panic(unresolved{"role: samlsp function that builds the saml.ServiceProvider (store to AllowIDPInitiated)"})
 	}
+}
+
+// lastResultIsBool: the function reports success in a trailing bool result (value, ok).
+func lastResultIsBool(f *ssa.Function) bool {
+	rs := f.Signature.Results()
+	return rs.Len() >= 2 && isBoolType(rs.At(rs.Len()-1).Type())
 }
